@@ -1,0 +1,19 @@
+//go:build verif
+
+package build
+
+import (
+	apkfs "chainguard.dev/apko/pkg/apk/fs"
+	"chainguard.dev/apko/pkg/build/types"
+	"chainguard.dev/apko/pkg/options"
+)
+
+// VerifMutateAccounts exposes mutateAccounts to the verification harness.
+func VerifMutateAccounts(fsys apkfs.FullFS, ic *types.ImageConfiguration) error {
+	return mutateAccounts(fsys, ic)
+}
+
+// VerifMutatePaths exposes mutatePaths to the verification harness.
+func VerifMutatePaths(fsys apkfs.FullFS, ic *types.ImageConfiguration) error {
+	return mutatePaths(fsys, &options.Options{}, ic)
+}
